@@ -161,6 +161,23 @@ func invalidCorpus() []CorpusReq {
 	add("anchoring-unknown-applier", b1("anchoring", asM(set(M(an), "outline", "applier", "function"))))
 	add("anchoring-applier-scaling-zero", b1("anchoring", asM(set(M(an), 0.0, "applier", "params", "allowedValuesRangeScaling"))))
 	add("bias-entry-not-an-object", set(ws, L{"fatigue"}, "biases"))
+	// many considered alternatives (50, 130: sizes at which work may be split or batched), a late one carries a value
+	// for an undeclared criterion / lacks a value: rejected all the same, and the process keeps answering
+	for _, m := range []string{"owa", "choquetIntegral", "weightedSum", "electreIII"} {
+		for _, n := range []int{50, 130} {
+			ids := make([]string, n)
+			vals := make([][]float64, n)
+			for i := range ids {
+				ids[i] = fmt.Sprintf("m%03d", i)
+				vals[i] = []float64{float64(i%5) + 1, float64((i*3)%7) + 1, float64((i*2)%3) + 1}
+			}
+			big := genericRequest(m, critIDs(3), -1, ids, vals, ids, []float64{1, 2, 3})
+			if m == "owa" || m == "choquetIntegral" {
+				add(fmt.Sprintf("%s-undeclared-value-in-alternative-%d-of-%d", m, n-9, n), set(big, 3.0, "knownAlternatives", n-9, "criteria", "note"))
+			}
+			add(fmt.Sprintf("%s-missing-value-in-alternative-%d-of-%d", m, n-2, n), set(big, deleteKey{}, "knownAlternatives", n-2, "criteria", "c2"))
+		}
+	}
 	// six considered alternatives, one of them with a value for an undeclared criterion (OWA / Choquet count the values)
 	for _, m := range []string{"owa", "choquetIntegral"} {
 		b6 := bigRequest(m)
